@@ -360,9 +360,35 @@ def find_region(path, fn_selector, start_pat, end_pat):
             if all(toks[code[ci + q]].text == pat[q] for q in range(len(pat))):
                 return ci
         return None
+    after = start_pat.startswith(">")
+    if after:
+        # `>pattern`: the region starts with the first statement AFTER the matched tokens (e.g. `>if c {` = first statement of
+        # that block)
+        start_pat = start_pat[1:].strip()
     a = find(start_pat, 0)
     if a is None:
         raise LostAnchor("region start `%s` not found in %r of %s" % (start_pat, fn_selector, path))
+    if after:
+        a += len([t for t in lex(start_pat) if t.kind not in ("ws", "lcomment", "bcomment")])
+    if end_pat.strip() == "$end":
+        # through the end of the block that contains the start statement
+        q, end_i = a, None
+        while q < len(code):
+            tq = toks[code[q]]
+            if tq.kind == "punct" and tq.text in "([{":
+                cl = match_close(toks, code[q])
+                while q < len(code) and code[q] <= cl:
+                    q += 1
+                continue
+            if tq.kind == "punct" and tq.text in ")]}":
+                end_i = code[q - 1]
+                break
+            q += 1
+        if end_i is None:
+            raise LostAnchor("region `%s` .. $end: no enclosing block end in %r" % (start_pat, fn_selector))
+        rt = toks[code[a]:end_i + 1]
+        text = src[rt[0].start:rt[-1].end]
+        return Item("region", "%s@%s" % (start_pat[:30], it.name), path, rt, None, _line_of(src, rt[0].start), _line_of(src, rt[-1].end - 1), text, None)
     b = find(end_pat, a)
     if b is None:
         raise LostAnchor("region end `%s` not found in %r of %s" % (end_pat, fn_selector, path))
